@@ -1101,6 +1101,12 @@ def _config_model(ctx, rep):
                      "Condition": mk("Condition"), "RefCountingColl": mk("RefCountingColl"), "WeakValueDict": mk("WeakValueDict"),
                      "count": mk("count")}
             glob = {"DEFAULT_CONFIG": dflt, "_connection_id_generator": gen}
+            # the module-level id counter, whatever it is called: every top-level name bound to itertools.count(...)
+            for st_ in fi.module.tree.body:
+                if isinstance(st_, ast.Assign) and isinstance(st_.value, ast.Call) and (A.call_name(st_.value) or "").endswith("count"):
+                    for t_ in st_.targets:
+                        if isinstance(t_, ast.Name):
+                            glob[t_.id] = gen
             extra = {"__calls__": hooks, "__globals__": glob, "__max_iter__": 500,
                      "__methods__": {n: m.node for n, m in ctx.cls(K.CONN).methods.items() if n not in ("__init__", "_request_handlers")}}
             import re as _re
